@@ -289,4 +289,265 @@ theorem parts_shifts : ∀ t ∈ [tQuery, tEnd],
     0 ≤ get yyPact sParts + t ∧ get yyPact sParts + t < yyLast ∧ get yyChk (get yyAct (get yyPact sParts + t)) = t := by
   decide +kernel
 
+/-! ### the invariant linking `l.inString` to the parser state -/
+
+/-- what is known in every configuration of a parse: `top` = state on top of the parser stack,
+    `look` = the look-ahead if one has been read, `s` = the lexer -/
+def J (top : Int) (look : Option (Int × LVal)) (s : LState) : Prop :=
+  (∀ lk, look = some lk → lk.1 = translate s.tokenType) ∧
+  (look = none → s.inString = true → OKtop top) ∧
+  (look.isSome = true → (s.tokenType = tokStringQuery ∨ s.tokenType = tokStringEnd) → OKtop top) ∧
+  (look.isSome = true → s.inString = true → s.tokenType = tokStringStart ∨ (OKtop top ∧ InStrTy s.tokenType)) ∧
+  (look.isSome = true → top ≠ sClose)
+
+theorem shiftOf_cases {σ τ : Type} (src : Source σ τ) (top : Int) (look : Option (Int × τ)) (s : σ) :
+    (get yyPact top ≤ yyFlag ∧ shiftOf src top look s = (look, s, none)) ∨
+    (¬ get yyPact top ≤ yyFlag ∧ ∃ x, shiftOf src top look s = (some (ensureLook src look s).1, (ensureLook src look s).2, x) ∧
+      (∀ n, x = some n → n = get yyAct (get yyPact top + (ensureLook src look s).1.1) ∧
+         get yyChk n = (ensureLook src look s).1.1) ∧
+      (x = none → ¬ (0 ≤ get yyPact top + (ensureLook src look s).1.1 ∧ get yyPact top + (ensureLook src look s).1.1 < yyLast ∧
+         get yyChk (get yyAct (get yyPact top + (ensureLook src look s).1.1)) = (ensureLook src look s).1.1))) := by
+  simp only [shiftOf]
+  split
+  · exact Or.inl ⟨‹_›, rfl⟩
+  · refine Or.inr ⟨‹_›, ?_⟩
+    split
+    · rename_i hj
+      have hj' : get yyPact top + (ensureLook src look s).1.1 < 0 ∨ get yyPact top + (ensureLook src look s).1.1 ≥ yyLast := by
+        simpa using hj
+      exact ⟨none, rfl, fun n h => by simp at h, fun _ hc => by omega⟩
+    · split
+      · rename_i hc
+        exact ⟨some _, rfl, fun n h => by simp at h; subst h; exact ⟨rfl, by simpa using hc⟩, fun h => by simp at h⟩
+      · rename_i hc
+        exact ⟨none, rfl, fun n h => by simp at h, fun _ hc' => hc (by simpa using hc'.2.2)⟩
+
+theorem defaultOf_cases {σ τ : Type} (src : Source σ τ) (top : Int) (look : Option (Int × τ)) (s : σ) :
+    (get yyDef top = -2 ∧ defaultOf src top look s =
+        (some (ensureLook src look s).1, (ensureLook src look s).2, excaFind yyExca top (ensureLook src look s).1.1)) ∨
+    (get yyDef top ≠ -2 ∧ defaultOf src top look s = (look, s, some (get yyDef top))) := by
+  simp only [defaultOf]
+  split
+  · rename_i h; exact Or.inl ⟨by simpa using h, rfl⟩
+  · rename_i h; exact Or.inr ⟨by simpa using h, rfl⟩
+
+/-- reading the look-ahead keeps the invariant (never done in the state after the closing `)`) -/
+theorem J_ensure (top : Int) (look : Option (Int × LVal)) (s : LState) (h : J top look s) (hc : top ≠ sClose) :
+    J top (some (ensureLook Parse.source look s).1) (ensureLook Parse.source look s).2 := by
+  obtain ⟨hE, hA, hB, hC, hD⟩ := h
+  unfold ensureLook
+  cases look with
+  | some lk => exact ⟨hE, hA, hB, hC, hD⟩
+  | none =>
+    simp only [Parse.source]
+    obtain ⟨m1, m2, m3⟩ := lex_modes s
+    refine ⟨fun lk h => by rw [← Option.some.inj h, m1], (fun h => nomatch h), fun _ hq => ?_, fun _ hi => ?_, fun _ => hc⟩
+    · rw [m1] at hq
+      by_cases hin : s.inString = true
+      · exact hA rfl hin
+      · have := m3 (by simpa using hin)
+        rcases hq with hq | hq
+        · exact absurd hq this.1
+        · exact absurd hq this.2.1
+    · rw [m1]
+      by_cases hin : s.inString = true
+      · exact Or.inr ⟨hA rfl hin, m2 hin hi⟩
+      · exact Or.inl ((m3 (by simpa using hin)).2.2 hi)
+
+theorem okTop_ne_close {top : Int} (h : OKtop top) (hs : ¬ get yyPact top ≤ yyFlag) : top = sParts := by
+  rcases h with h | h | h
+  · rw [h] at hs; exact absurd string_states.1 hs
+  · exact h
+  · rw [h] at hs; exact absurd string_states.2.1 hs
+
+theorem translate_vals : translate tokStringStart = tStart ∧ translate tokString = tPiece ∧
+    translate tokStringQuery = tQuery ∧ translate tokStringEnd = tEnd := ⟨rfl, rfl, rfl, rfl⟩
+
+theorem J_shift (top : Int) (look : Option (Int × LVal)) (s : LState) (lk : Int × LVal) (s1 : LState) (n : Int)
+    (h : J top look s) (hs : shiftOf Parse.source top look s = (some lk, s1, some n)) : J n none s1 := by
+  rcases shiftOf_cases Parse.source top look s with ⟨_, h2⟩ | ⟨hns, x, h2, h3, _⟩
+  · rw [h2] at hs; simp at hs
+  · rw [h2] at hs
+    simp only [Prod.mk.injEq, Option.some.injEq] at hs
+    obtain ⟨hlk, hs1, hx⟩ := hs
+    obtain ⟨hn, hchk⟩ := h3 n hx
+    have hclose : top ≠ sClose := by intro h; subst h; exact hns string_states.2.2.1
+    have hJ := J_ensure top look s h hclose
+    rw [hlk, hs1] at hJ
+    rw [hlk] at hn hchk
+    obtain ⟨hE, -, -, hC, -⟩ := hJ
+    have hE' := hE lk rfl
+    refine ⟨(fun _ h => nomatch h), fun _ hi => ?_, (fun h => Bool.noConfusion h), (fun h => Bool.noConfusion h), (fun h => Bool.noConfusion h)⟩
+    rcases hC rfl hi with hst | ⟨hok, hty⟩
+    · rw [hst] at hE'
+      exact Or.inl (chk_start n (by rw [hchk, hE']; rfl))
+    · have htop := okTop_ne_close hok hns
+      rcases hty with hty | hty | hty | hty <;> rw [hty] at hE'
+      · rw [htop, hE'] at hn
+        exact Or.inr (Or.inr hn)
+      · exact absurd (by rw [hchk, hE']) (chk_never n).1
+      · exact absurd (by rw [hchk, hE']) (chk_never n).2.1
+      · exact absurd (by rw [hchk, hE']) (chk_never n).2.2
+
+/-- the configuration in which the default action is taken -/
+theorem J_mid (top : Int) (look look1 look2 : Option (Int × LVal)) (s s1 s2 : LState) (r : Int)
+    (h : J top look s) (hs : shiftOf Parse.source top look s = (look1, s1, none))
+    (hd : defaultOf Parse.source top look1 s1 = (look2, s2, some r)) :
+    J top look2 s2 ∧
+    (look2 = none → get yyPact top ≤ yyFlag ∧ look = none ∧ s2 = s ∧ r = get yyDef top) ∧
+    (r = get yyDef top ∨ (get yyDef top = -2 ∧ ∃ t, excaFind yyExca top t = some r)) ∧
+    (look2.isSome = true → get yyPact top ≤ yyFlag ∨ ∀ lk, look2 = some lk →
+      ¬ (0 ≤ get yyPact top + lk.1 ∧ get yyPact top + lk.1 < yyLast ∧ get yyChk (get yyAct (get yyPact top + lk.1)) = lk.1)) := by
+  rcases shiftOf_cases Parse.source top look s with ⟨hsimple, h2⟩ | ⟨hns, x, h2, _, h4⟩
+  · rw [h2] at hs
+    simp only [Prod.mk.injEq] at hs
+    obtain ⟨hl, hs1, -⟩ := hs
+    subst hl hs1
+    rcases defaultOf_cases Parse.source top look s with ⟨hd2, h5⟩ | ⟨hd2, h5⟩
+    · rw [h5] at hd
+      simp only [Prod.mk.injEq] at hd
+      obtain ⟨hl2, hs2, hr⟩ := hd
+      subst hl2 hs2
+      have hclose : top ≠ sClose := by intro h; subst h; exact string_states.2.2.2.2.2.1 hd2
+      exact ⟨J_ensure top look s h hclose, (fun h => nomatch h), Or.inr ⟨hd2, _, hr⟩, fun _ => Or.inl hsimple⟩
+    · rw [h5] at hd
+      simp only [Prod.mk.injEq, Option.some.injEq] at hd
+      obtain ⟨hl2, hs2, hr⟩ := hd
+      subst hl2 hs2
+      exact ⟨h, fun h => ⟨hsimple, h, rfl, hr.symm⟩, Or.inl hr.symm, fun _ => Or.inl hsimple⟩
+  · rw [h2] at hs
+    simp only [Prod.mk.injEq] at hs
+    obtain ⟨hl, hs1, hx⟩ := hs
+    have hclose : top ≠ sClose := by intro h; subst h; exact hns string_states.2.2.1
+    have hJ := J_ensure top look s h hclose
+    have h4' := h4 hx
+    generalize (ensureLook Parse.source look s).1 = lk0 at hl hJ h4'
+    subst hl hs1
+    have hno : ∀ lk, some lk0 = some lk →
+        ¬ (0 ≤ get yyPact top + lk.1 ∧ get yyPact top + lk.1 < yyLast ∧ get yyChk (get yyAct (get yyPact top + lk.1)) = lk.1) := by
+      intro lk hlk; rw [← Option.some.inj hlk]; exact h4'
+    rcases defaultOf_cases Parse.source top (some lk0) (ensureLook Parse.source look s).2 with ⟨hd2, h5⟩ | ⟨hd2, h5⟩
+    · rw [h5] at hd
+      simp only [ensureLook, Prod.mk.injEq] at hd
+      obtain ⟨hl2, hs2, hr⟩ := hd
+      subst hl2 hs2
+      exact ⟨hJ, (fun h => nomatch h), Or.inr ⟨hd2, _, hr⟩, fun _ => Or.inr hno⟩
+    · rw [h5] at hd
+      simp only [Prod.mk.injEq, Option.some.injEq] at hd
+      obtain ⟨hl2, hs2, hr⟩ := hd
+      subst hl2 hs2
+      exact ⟨hJ, (fun h => nomatch h), Or.inl hr.symm, fun _ => Or.inr hno⟩
+
+/-- from one of the three string states every reduction leads to the state after `stringparts` -/
+theorem reduce_from_ok (top r st0 : Int) (hok : OKtop top) (hr0 : r ≠ 0)
+    (hr : r = get yyDef top ∨ (get yyDef top = -2 ∧ ∃ t, excaFind yyExca top t = some r)) :
+    gotoState r st0 = sParts ∧ ¬ SetsInString r := by
+  obtain ⟨-, -, -, -, h5, -, h7, h8, -, -, h11, h12, -, h14, h15⟩ := string_states
+  rcases hok with h | h | h <;> rw [h] at hr
+  · rcases hr with hr | ⟨hr, -⟩
+    · rw [hr]; exact ⟨goto_parts _ _ h11, h14⟩
+    · exact absurd hr h7
+  · rcases hr with hr | ⟨hr, -⟩
+    · rw [h5] at hr; exact absurd hr hr0
+    · rw [h5] at hr; exact absurd hr (by decide)
+  · rcases hr with hr | ⟨hr, -⟩
+    · rw [hr]; exact ⟨goto_parts _ _ h12, h15⟩
+    · exact absurd hr h8
+
+theorem J_reduce (top : Int) (look look1 look2 : Option (Int × LVal)) (s s1 s2 : LState) (r : Int)
+    (h : J top look s) (hs : shiftOf Parse.source top look s = (look1, s1, none))
+    (hd : defaultOf Parse.source top look1 s1 = (look2, s2, some r)) (hneg : ¬ r < 0) (hr0 : r ≠ 0) (st0 : Int) :
+    J (gotoState r st0) look2 (Parse.source.onReduce r.toNat s2) := by
+  obtain ⟨hJ2, hnone, hr, -⟩ := J_mid top look look1 look2 s s1 s2 r h hs hd
+  obtain ⟨hE, hA, hB, hC, hD⟩ := hJ2
+  simp only [Parse.source]
+  split
+  · rename_i hset
+    have hsets : SetsInString r := ⟨by omega, hset⟩
+    have htop : top = sClose := by
+      rcases hr with hr | ⟨-, t, ht⟩
+      · exact def_close top (by rw [← hr]; exact hsets)
+      · exact absurd hsets (exca_not_setting r (excaFind_mem _ _ _ _ ht))
+    have hl2 : look2 = none := by
+      cases look2 with
+      | none => rfl
+      | some lk => exact absurd htop (hD rfl)
+    have hr' : r = get yyDef sClose := by
+      rcases hr with hr | ⟨hr, -⟩
+      · rw [hr, htop]
+      · rw [htop] at hr; exact absurd hr string_states.2.2.2.2.2.1
+    rw [hl2]
+    refine ⟨(fun _ h => nomatch h), fun _ _ => Or.inr (Or.inl ?_), (fun h => Bool.noConfusion h),
+      (fun h => Bool.noConfusion h), (fun h => Bool.noConfusion h)⟩
+    rw [hr']
+    exact goto_parts _ _ string_states.2.2.2.2.2.2.2.2.2.2.2.2.1
+  · refine ⟨hE, fun hl hi => ?_, fun hl hq => ?_, fun hl hi => ?_, fun _ => goto_ne_close r st0⟩
+    · obtain ⟨hsimple, hlook, hs2, hrd⟩ := hnone hl
+      have hok := hA hl hi
+      exact Or.inr (Or.inl (reduce_from_ok top r st0 hok hr0 (Or.inl hrd)).1)
+    · exact Or.inr (Or.inl (reduce_from_ok top r st0 (hB hl hq) hr0 hr).1)
+    · rcases hC hl hi with hst | ⟨hok, hty⟩
+      · exact Or.inl hst
+      · exact Or.inr ⟨Or.inr (Or.inl (reduce_from_ok top r st0 hok hr0 hr).1), hty⟩
+
+theorem J_reject (top : Int) (look look1 look2 : Option (Int × LVal)) (s s1 s2 : LState)
+    (h : J top look s) (hs : shiftOf Parse.source top look s = (look1, s1, none))
+    (hd : defaultOf Parse.source top look1 s1 = (look2, s2, some 0)) :
+    s2.tokenType ≠ tokStringQuery ∧ s2.tokenType ≠ tokStringEnd := by
+  obtain ⟨hJ2, hnone, hr, hsome⟩ := J_mid top look look1 look2 s s1 s2 0 h hs hd
+  obtain ⟨hE, hA, hB, hC, hD⟩ := hJ2
+  have key : ¬ (s2.tokenType = tokStringQuery ∨ s2.tokenType = tokStringEnd) := by
+    intro hq
+    cases hl : look2 with
+    | none =>
+      obtain ⟨hsimple, -, -, hrd⟩ := hnone hl
+      exact simple_states_reduce top hsimple hrd.symm
+    | some lk =>
+      have hlk := hE lk hl
+      have hok := hB (by rw [hl]; rfl) hq
+      obtain ⟨-, -, -, h4, h5, -, h7, h8, h9, h10, -⟩ := string_states
+      rcases hok with htop | htop | htop
+      · rw [htop] at hr
+        rcases hr with hr | ⟨hr, -⟩
+        · exact h9 hr.symm
+        · exact h7 hr
+      · rcases hsome (by rw [hl]; rfl) with hsimple | hno
+        · rw [htop] at hsimple; exact h4 hsimple
+        · have := hno lk hl
+          rw [htop, hlk] at this
+          rcases hq with hq | hq <;> rw [hq] at this
+          · exact this (parts_shifts tQuery (by simp))
+          · exact this (parts_shifts tEnd (by simp))
+      · rw [htop] at hr
+        rcases hr with hr | ⟨hr, -⟩
+        · exact h10 hr.symm
+        · exact h8 hr
+  exact ⟨fun h => key (Or.inl h), fun h => key (Or.inr h)⟩
+
+/-- THE PARSER NEVER REJECTS `\(` OR THE CLOSING QUOTE OF AN INTERPOLATED STRING: whenever
+    `Parse(src)` calls `yylex.Error`, the last token read is neither tokStringQuery nor
+    tokStringEnd — the only two token types for which `l.token` is stale and not overridden by
+    `Error`.  For every source text, on the shipped LALR tables. -/
+theorem parse_never_rejects_string_continuation (src : Bytes) :
+    match Parse.parse src with
+    | .reject _ _ s' => s'.tokenType ≠ tokStringQuery ∧ s'.tokenType ≠ tokStringEnd
+    | _ => True := by
+  have := run_invariant_state Parse.source J (fun s => s.tokenType ≠ tokStringQuery ∧ s.tokenType ≠ tokStringEnd)
+    (fun top look s lk s1 n h hs => J_shift top look s lk s1 n h hs)
+    (fun top look s look1 s1 look2 s2 r h hs hd hneg hr0 st0 => J_reduce top look look1 look2 s s1 s2 r h hs hd hneg hr0 st0)
+    (fun top look s look1 s1 look2 s2 h hs hd => J_reject top look look1 look2 s s1 s2 h hs hd)
+    (Parse.parseFuel src) [(0, .tok 0 default)] none (LState.init src)
+    (by
+      intro top t rest he
+      refine ⟨(fun _ h => nomatch h), fun _ hi => ?_, (fun h => Bool.noConfusion h), (fun h => Bool.noConfusion h),
+        (fun h => Bool.noConfusion h)⟩
+      simp [LState.init] at hi)
+  unfold Parse.parse start
+  revert this
+  cases run Parse.source (Parse.parseFuel src) [(0, PT.tok 0 default)] none (LState.init src) <;>
+    simp only [RejectGood] <;> intro h
+  · trivial
+  · exact h
+  · trivial
+
 end Gojq.Lexer
